@@ -46,6 +46,8 @@ class Recorder:
         self.assocs = {}
         self.raising = raising  # callable(side_key, evname, n) -> bool: raise inside this invocation?
         self.counts = {}
+        self.frozen = False  # set by wait_quiet once every association recorded so far has ended
+        self.late = []  # what arrives after that (a connection accepted too late to be part of the histories)
 
     def handlers(self):
         from pynetdicom import evt
@@ -98,6 +100,9 @@ class Recorder:
             elif name in ("EVT_ACSE_SENT", "EVT_ACSE_RECV"):
                 rec += [type(event.primitive).__name__]
             with self.lock:
+                if self.frozen and id(a) not in self.assocs:
+                    self.late.append(rec)
+                    return
                 self.hist.setdefault(id(a), []).append(rec)
                 self.assocs[id(a)] = a
                 k = (id(a), name)
@@ -115,6 +120,18 @@ class Recorder:
     def history(self, assoc):
         with self.lock:
             return list(self.hist.get(id(assoc), []))
+
+    def known(self):
+        with self.lock:
+            return list(self.assocs.values())
+
+    def freeze_if(self, n):
+        """no history of a NEW association is opened from now on, provided still only `n` are known"""
+        with self.lock:
+            if len(self.assocs) != n:
+                return False
+            self.frozen = True
+            return True
 
 
 # --------------------------------------------------------------------------
@@ -165,15 +182,47 @@ def pynet_threads():
     return out
 
 
-def wait_quiet(before, timeout):
-    """wait until no pynetdicom association/DUL thread other than those in `before` is alive"""
+def _unfinished(assoc):
+    """an association that a recorder has seen a notification of and that has not ended: its thread is still to be
+    started (the server notifies EVT_CONN_OPEN from ITS thread and starts the association's thread afterwards, so
+    `threading.enumerate()` does not list it yet), or it, or its provider thread, is alive"""
+    try:
+        # (a requestor's association thread is started only once the association is established: never, when it is
+        # rejected or aborted during the negotiation, which runs on the caller's thread)
+        return (assoc.is_acceptor and assoc.ident is None) or assoc.is_alive() or assoc.dul.is_alive()
+    except Exception:
+        return False
+
+
+def wait_accepted(rec_req, assoc, rec_acc, timeout=2.0):
+    """the requestor's transport connection was made: give the server's thread the time to get round to accepting it,
+    so that the acceptor's side of a very short association (ended by the requestor before the acceptor said anything)
+    has a history at all"""
+    if not any(r[1] == "EVT_CONN_OPEN" for r in rec_req.history(assoc)):
+        return
     deadline = time.monotonic() + timeout
-    while time.monotonic() < deadline:
+    while not rec_acc.known() and time.monotonic() < deadline:
+        time.sleep(0.005)
+
+
+def wait_quiet(before, timeout, recorders=()):
+    """wait until no pynetdicom association/DUL thread other than those in `before` is alive and every association the
+    `recorders` have a history of has been started and has ended.  The recorders are then frozen: the histories they
+    hold are those of ended associations, and a connection the server gets round to only later opens no new one.
+    Returns the threads (and not yet started associations) that remain when the time is up."""
+    deadline = time.monotonic() + timeout
+    while True:
+        known = [r.known() for r in recorders]
         extra = [t for t in pynet_threads() if t not in before and t.is_alive()]
-        if not extra:
+        pending = [a for ks in known for a in ks if _unfinished(a)]
+        if not extra and not pending and all(r.freeze_if(len(ks)) for r, ks in zip(recorders, known)):
             return []
+        if time.monotonic() >= deadline:
+            break
         time.sleep(0.01)
-    return [f"{type(t).__name__}:{t.name}" for t in pynet_threads() if t not in before and t.is_alive()]
+    out = [f"{type(t).__name__}:{t.name}" for t in extra]
+    out += [f"{type(a).__name__}:{a.name}:not-started" for a in pending if a.ident is None and not a.is_alive()]
+    return out
 
 
 def sock_closed(assoc):
@@ -320,7 +369,8 @@ def run_scenario(sc, rng, raising=None, extra_handlers=None, kind="function"):
         # wait for both sides to end (the idle case ends through the network timeout)
         limit = 3 * t_o + 2.0
         th.join(limit)
-        leaks = wait_quiet(before, limit)
+        wait_accepted(rec_req, assoc, rec_acc)
+        leaks = wait_quiet(before, limit, (rec_req, rec_acc))
         res["wall"] = time.monotonic() - t0
         res["limit"] = limit
         res["thread_errors"] = list(thread_errors)
